@@ -1,6 +1,7 @@
 SPECIFICATION TSpec
 CONSTANTS
   Cfgs = {}
-  Walk = "current"
+  Walk = "fixed"
+  EnvFail = "done"
 INVARIANTS Done DInvariants
 CHECK_DEADLOCK FALSE
